@@ -117,3 +117,49 @@ def grid_settings(draw, axes, exotic=True):
 
 def pos_len(n, pos):
     return n + LEN_DELTA[pos]
+
+
+# ---------------------------------------------------------------- face-connection tables
+@st.composite
+def link_tables(draw, nfaces, axes=("X", "Y"), min_pairs=1, allow_self=True, keep_empty=None):
+    """Random reciprocal table: a partial matching of the faces x axes x {left,right} edge
+    slots.  A matched pair of slots yields reciprocal links with reverse = (side1 == side2);
+    a slot matched with itself is a reversed self-link.  JSON form:
+    {str(face): {axis: [link|None, link|None]}}, link = [face, axis, reverse]."""
+    slots = [(f, a, s) for f in range(nfaces) for a in axes for s in (0, 1)]
+    perm = draw(st.permutations(slots))
+    npairs = draw(st.integers(min_pairs, len(slots) // 2))
+    tab = {f: {a: [None, None] for a in axes} for f in range(nfaces)}
+    i = 0
+    for _ in range(npairs):
+        if i >= len(perm):
+            break
+        if allow_self and draw(st.integers(0, 9)) == 0:
+            s1 = s2 = perm[i]
+            i += 1
+        else:
+            if i + 1 >= len(perm):
+                break
+            s1, s2 = perm[i], perm[i + 1]
+            i += 2
+        rev = bool(s1[2] == s2[2])
+        tab[s1[0]][s1[1]][s1[2]] = [s2[0], s2[1], rev]
+        tab[s2[0]][s2[1]][s2[2]] = [s1[0], s1[1], rev]
+    out = {}
+    for f in range(nfaces):
+        out[str(f)] = {}
+        for a in axes:
+            if tab[f][a] != [None, None] or (draw(st.booleans()) if keep_empty is None else keep_empty):
+                out[str(f)][a] = tab[f][a]
+    return out
+
+
+def table_to_xgcm(table, facedim="face"):
+    """JSON table -> the nested dict xgcm expects (int face keys, tuple links)."""
+    return {facedim: {int(f): {a: tuple(None if l is None else (int(l[0]), l[1], bool(l[2])) for l in sides)
+                               for a, sides in per.items()} for f, per in table.items()}}
+
+
+def table_to_model(table):
+    return {int(f): {a: [None if l is None else (int(l[0]), l[1], bool(l[2])) for l in sides]
+                     for a, sides in per.items()} for f, per in table.items()}
